@@ -938,10 +938,10 @@ func cacheViewFromFile(
 	if !isCached || (forUpdate && !view.FileInfo.ForUpdate) {
 		var fileInfo *FileInfo = nil
 		if isCached {
-			fileInfo = view.FileInfo
-			if err = scope.Tx.CachedViews.Dispose(scope.Tx.FileContainer, fileInfo.IdentifiedPath()); err != nil {
-				return
-			}
+			// The view loaded for reading stays in the cache until the file has been loaded again
+			// for update; if the table cannot be acquired, the transaction keeps the data it has.
+			info := *view.FileInfo
+			fileInfo = &info
 		} else {
 			fileInfo, err = NewFileInfo(fileIdentifier, scope.Tx.Flags.Repository, options, scope.Tx.Flags.ImportOptions.Format)
 			if err != nil {
